@@ -6,7 +6,6 @@ import (
 	"sort"
 	"strings"
 	"sync"
-	"time"
 
 	"github.com/grailbio/bigmachine/testsystem"
 	"github.com/grailbio/bigslice/exec"
@@ -62,7 +61,8 @@ func runC02(c string) string {
 	var results []*exec.Result
 	var outs []string
 	for _, prog := range segs[2:] {
-		o := s.runProgram(ctx, prog, results, 90*time.Second)
+		// the results a program mentions (R<k>, numbered over the case) are passed as its arguments
+		o, _ := s.runWithResults(ctx, prog, results)
 		mu.Lock()
 		k := kills
 		mu.Unlock()
